@@ -150,7 +150,7 @@ def check_thresholds(tier, seed):
         with open(ref, "w") as f:
             f.write(">CHR1\n%s\n" % seq)
         pysam.faidx(ref)
-        depths_per_sample = (5, 50, 40)
+        depths_per_sample = (5, 100, 10)
         L = 12
         start = 10
         truth = np.zeros((L, 3, 4), dtype=int)
@@ -161,6 +161,8 @@ def check_thresholds(tier, seed):
             for p in range(L):
                 refb = "ACGT".index(seq[start + p])
                 mix = rng.choice(["ref", "het", "rare", "alt", "tri"], p=[0.2, 0.3, 0.2, 0.15, 0.15])
+                if p == 3:
+                    mix = "alt"  # every read of a sample carries the same base: a count equal to the depth (100, 10: powers of ten)
                 if p < 3:
                     # the same allele is frequent-but-shallow in the shallow sample and deep-but-rare in the
                     # deep ones: no single individual meets both individual thresholds
@@ -202,10 +204,12 @@ def check_thresholds(tier, seed):
             finally:
                 sys.stdout = saved
             got = {}
+            lines = {}
             for line in out.getvalue().splitlines():
                 c = line.split("\t")
                 if len(c) > 7 and not line.startswith("#"):
                     got[int(c[1])] = (c[3], c[4], "REFMASKED" in c[7])
+                    lines[int(c[1])] = c
             exp = {}
             for p in range(L):
                 d = truth[p].astype(float)
@@ -233,12 +237,23 @@ def check_thresholds(tier, seed):
                 g = got[pos]
                 galts = ["ACGT".index(x) for x in g[1].split(",")] if g[1] != "." else []
                 ordered = all(mean[galts[i]] >= mean[galts[i + 1]] - 1e-12 for i in range(len(galts) - 1))
+                # reported depths: INFO/AD and every sample's FORMAT/AD are the pileup counts of the listed alleles
+                c = lines[pos]
+                listed = ["ACGT".index(refc)] + galts
+                p_ = pos - start - 1
+                info_ad = [x for x in c[7].split(";") if x.startswith("AD=")]
+                exp_info = ",".join(str(int(truth[p_, :, a].sum())) for a in listed)
+                fmt = c[8].split(":")
+                exp_samples = [",".join(str(int(truth[p_, si_, a])) for a in listed) for si_ in range(len(bams))]
+                got_samples = [x.split(":")[fmt.index("AD")] for x in c[9:]] if "AD" in fmt else None
+                if (not info_ad or info_ad[0] != "AD=" + exp_info or got_samples != exp_samples) and not any(f["key"] == "rt/find_snvs_reported_depths" for f in fails):
+                    fails.append({"key": "rt/find_snvs_reported_depths", "check": "mchap.application.find_snvs.write_vcf_block", "input": dict(inp, pos=pos), "observed": {"INFO": info_ad, "samples": got_samples}, "expected": {"INFO": "AD=" + exp_info, "samples": exp_samples}, "how": "INFO/AD and FORMAT/AD of every listed allele vs the counts of the reads written (depths 5/100/10: includes counts that are powers of ten)"})
                 if (g[0] != refc or sorted(galts) != sorted(alts) or not ordered or g[2] != masked) and len(fails) < 3:
                     fails.append({"key": "rt/find_snvs_alleles_listed", "check": "mchap.application.find_snvs.write_vcf_block", "input": dict(inp, pos=pos), "observed": {"REF": g[0], "ALT": g[1], "REFMASKED": g[2]}, "expected": {"REF": refc, "ALT (any order among equal means)": ["ACGT"[a] for a in sorted(alts, key=lambda a: -mean[a])], "REFMASKED": bool(masked)}, "how": "allele listed iff individual (ind-maf & ind-mad in the same sample, min-ind samples) and population thresholds are met"})
         samples_out.append({"positions": L, "sample_depths": list(depths_per_sample), "threshold_sets": len(grid)})
     finally:
         shutil.rmtree(tmp, ignore_errors=True)
-    return {"bound": "3 synthetic samples (depth 5/50/40) x 12 positions x threshold grid", "evaluations": ev, "distinct_nontrivial": nontriv, "failures": fails, "samples": samples_out, "exhaustive": False}
+    return {"bound": "3 synthetic samples (depth 5/100/10) x 12 positions x threshold grid; reported INFO/AD and FORMAT/AD compared on every emitted line", "evaluations": ev, "distinct_nontrivial": nontriv, "failures": fails, "samples": samples_out, "exhaustive": False}
 
 
 CHECKS = [check_depths, check_count_kernels, check_thresholds]
